@@ -2,6 +2,7 @@ package props
 
 import (
 	"sort"
+	"time"
 
 	"verifharness/core"
 )
@@ -27,7 +28,9 @@ func RegisterSub(id, name string, f func(*core.Ctx)) {
 			if c.Only != "" && c.Only != s.name {
 				continue
 			}
+			t0 := time.Now()
 			s.f(c)
+			c.HistN("sub-check wall seconds ("+c.Variant+")", s.name, int64(time.Since(t0).Seconds()+0.5))
 		}
 	}
 }
